@@ -53,8 +53,38 @@ fn static_sig(w: &World, p: &PoolInfo) -> String {
     format!("{}|{:?}|{}|{:?}|{}|{}", p.asset_denoms.join(","), p.asset_decimals, fees_str(&p.pool_fees), p.pool_type, w.cd(&p.lp_denom), p.pool_identifier)
 }
 
+/// Independent per-epoch ledger of LP weights, kept from the *operations* and never compacted:
+/// after every accepted position operation in epoch c the cumulative weight of the user and of the
+/// contract is recorded as taking effect at c+1.  `entry` = first epoch of the user's current
+/// stay in an LP token, `cursor` = last epoch the user claimed (dropped when they hold no open
+/// position any more).
+#[derive(Default)]
+pub struct Ledger {
+    pub hist: BTreeMap<(String, String), Vec<(u64, u128)>>,
+    pub entry: BTreeMap<(String, String), u64>,
+    pub cursor: BTreeMap<String, u64>,
+}
+
+impl Ledger {
+    fn record(&mut self, who: &str, lp: &str, epoch: u64, w: u128) {
+        let h = self.hist.entry((who.to_string(), lp.to_string())).or_default();
+        if let Some(last) = h.last_mut() { if last.0 == epoch { last.1 = w; return; } }
+        h.push((epoch, w));
+    }
+    fn hist_str(&self, who: &str, lp: &str) -> String {
+        let e: Vec<(u64, u128)> = vec![];
+        let h = self.hist.get(&(who.to_string(), lp.to_string())).unwrap_or(&e);
+        let mut s = format!("{}", h.len());
+        for (ep, w) in h.iter() { s += &format!(" {} {}", ep, w); }
+        s
+    }
+}
+
 #[derive(Default)]
 pub struct MonState {
+    pub ledger: Ledger,
+    /// Rewards{} answer taken right before a claim: denom -> amount, or None when the query failed
+    pub rewards_quote: Option<BTreeMap<String, u128>>,
     /// static signature of every pool at the first snapshot that showed it
     pub statics: BTreeMap<String, String>,
     /// denoms for which the pool manager received an explicit donation (send, receiver=pm)
@@ -275,7 +305,84 @@ pub fn tx_monitors(h: &Hist, ms: &mut MonState, b: &Obs, line: &str, res: &str, 
             }
         }
     }
+    // ---- ledger: weights recorded from the operations (C06 / C07)
+    if ok {
+        let latest = |o: &Obs, who: &str, lp: &str| -> u128 {
+            o.users.get(who).and_then(|u| u.1.get(lp)).and_then(|h| h.last()).map(|x| x.1).unwrap_or(0)
+        };
+        let is_pos_op = (tx.contract == "fm" && matches!(tx.kind.as_str(), "createpos" | "expandpos" | "closepos" | "withdrawpos"))
+            || (tx.contract == "pm" && tx.kind == "provide");
+        if is_pos_op {
+            if let Some(c) = b.epoch {
+                for lp in h.lps.iter() {
+                    let real = h.w.rd(lp);
+                    // contract total
+                    if latest(a, "fm", lp) != latest(b, "fm", lp) || a.users.get("fm").map(|u| u.1.get(lp).map(|x| x.len())) != b.users.get("fm").map(|u| u.1.get(lp).map(|x| x.len())) {
+                        ms.ledger.record("fm", lp, c + 1, latest(a, "fm", lp));
+                    }
+                    for u in ["u1", "u2", "u3", "u4", "owner", "out"] {
+                        let ua = h.w.astr(u);
+                        let open_b = b.positions.iter().any(|p| p.open && p.receiver.as_str() == ua && p.lp_asset.denom == real);
+                        let open_a = a.positions.iter().any(|p| p.open && p.receiver.as_str() == ua && p.lp_asset.denom == real);
+                        let changed = a.positions.iter().filter(|p| p.receiver.as_str() == ua && p.lp_asset.denom == real).map(|p| (p.identifier.clone(), p.open, p.lp_asset.amount)).collect::<Vec<_>>()
+                            != b.positions.iter().filter(|p| p.receiver.as_str() == ua && p.lp_asset.denom == real).map(|p| (p.identifier.clone(), p.open, p.lp_asset.amount)).collect::<Vec<_>>();
+                        if !changed { continue; }
+                        if open_a {
+                            if !open_b { ms.ledger.entry.insert((u.to_string(), lp.clone()), c + 1); ms.ledger.hist.remove(&(u.to_string(), lp.clone())); }
+                            ms.ledger.record(u, lp, c + 1, latest(a, u, lp));
+                        } else if open_b {
+                            // full exit from this LP token: the user's weight is gone from c+1 on
+                            ms.ledger.hist.remove(&(u.to_string(), lp.clone()));
+                            ms.ledger.entry.remove(&(u.to_string(), lp.clone()));
+                        }
+                        if !a.positions.iter().any(|p| p.open && p.receiver.as_str() == ua) { ms.ledger.cursor.remove(u); }
+                    }
+                }
+            }
+        }
+    }
     if tx.contract == "fm" {
+        if tx.kind == "claim" && tx.funds.is_empty() {
+            let ua = h.w.astr(&tx.sender);
+            let lps: Vec<String> = h.lps.iter().filter(|lp| { let real = h.w.rd(lp); b.positions.iter().any(|p| p.open && p.receiver.as_str() == ua && p.lp_asset.denom == real) }).cloned().collect();
+            if let (Some(cur), false) = (b.epoch, lps.is_empty()) {
+                let until: u64 = if tx.args[0] == "-" { cur } else { tx.args[0].parse().unwrap_or(cur) };
+                let cursor = ms.ledger.cursor.get(&tx.sender).copied();
+                let valid = until <= cur && cursor.map(|l| until >= l).unwrap_or(true);
+                if ok {
+                    let mut s = format!("mon_claim {} {} {}", until, cursor.map(|x| x.to_string()).unwrap_or("-".into()), lps.len());
+                    let mut denoms: Vec<String> = vec![];
+                    for lp in lps.iter() {
+                        let real = h.w.rd(lp);
+                        let entry = ms.ledger.entry.get(&(tx.sender.clone(), lp.clone())).copied().unwrap_or(0);
+                        s += &format!(" {} {} {}", entry, ms.ledger.hist_str(&tx.sender, lp), ms.ledger.hist_str("fm", lp));
+                        let farms: Vec<_> = b.farms.iter().filter(|f| f.lp_denom == real).collect();
+                        s += &format!(" {}", farms.len());
+                        for f in farms {
+                            let after = a.farms.iter().find(|g| g.identifier == f.identifier);
+                            let cd = after.map(|g| g.claimed_amount.u128() - f.claimed_amount.u128()).unwrap_or(0);
+                            let d = h.w.cd(&f.farm_asset.denom);
+                            if !denoms.contains(&d) { denoms.push(d.clone()); }
+                            s += &format!(" {} {} {} {} {}", f.emission_rate, f.start_epoch, f.preliminary_end_epoch, d, cd);
+                        }
+                    }
+                    s += &format!(" {}", denoms.len());
+                    for d in denoms.iter() {
+                        // what the claimant received; the farm manager's own balance moves by the same amount
+                        s += &format!(" {} {} {}", d, delta(b, a, &tx.sender, d), -delta(b, a, "fm", d));
+                    }
+                    match &ms.rewards_quote {
+                        Some(q) => { s += &format!(" 1 {}", q.len()); for (d, v) in q.iter() { s += &format!(" {} {}", d, v); } }
+                        None => { s += " 0 0"; }
+                    }
+                    out.push(s);
+                    ms.ledger.cursor.insert(tx.sender.clone(), until);
+                } else if valid {
+                    out.push(format!("mon_claim_rejected {} {}", until, cursor.map(|x| x.to_string()).unwrap_or("-".into())));
+                }
+            }
+            ms.rewards_quote = None;
+        }
         if tx.kind == "withdrawpos" {
             if let Some(p) = b.positions.iter().find(|p| p.identifier == tx.args[0]) {
                 let lp = h.w.cd(&p.lp_asset.denom);
